@@ -32,6 +32,8 @@ def gen_cases(rng, n):
     cases = templates()
     for _ in range(max(40, n)):
         cases.append(("scripted", S.scripted(rng), rng.choice(["", "xy", "A\nB\n", "q"])))
+    for _ in range(max(6, n // 10)):
+        cases.append(("bigarith", S.bigarith(rng, max_sq=4), ""))
     for _ in range(n):
         cases.append(("random", G.render(G.gen_program(rng)), G.gen_stdin(rng)))
     return cases
@@ -115,7 +117,7 @@ def run(prop, tier, seed):
     results = C.pmap(build_and_run, range(len(jobs)))
     # structure of the emitted program against the compiler model's IR, and the IR's run against the definition
     mir = C.run_model(["compir 1 %d %s" % (lv, G.cps(cases[k][1])) for k, lv in jobs])
-    mrun = C.run_model(["comp 1 %d 20000 %s %s" % (lv, G.cps(cases[k][1]), G.cps(cases[k][2])) for k, lv in jobs])
+    mrun = C.run_model(["comp 1 %d %d %s %s" % (lv, 4000 if quick else 20000, G.cps(cases[k][1]), G.cps(cases[k][2])) for k, lv in jobs])
     corr = []
     for (k, lv), src, mi, mr in zip(jobs, srcs, mir, mrun):
         if not src.startswith("src:"):
@@ -156,7 +158,7 @@ def run(prop, tier, seed):
     fails = []
     for (k, lv), (st, msg, res) in zip(jobs, results):
         tag, prog, stdin = cases[k]
-        hist[tag if tag in ("random", "scripted") else "template"] += 1
+        hist[tag if tag in ("random", "scripted", "bigarith") else "template"] += 1
         hist["level%d" % lv] += 1
         if len(prog) > 6:
             distinct.add((prog, stdin, lv))
